@@ -12,7 +12,7 @@ class LdcLdc2LiteralT1(LdcLdc2Literal):
         add = bit_at(instr, 23)
         index = bit_at(instr, 24)
         imm32 = imm8 << 2
-        if substring(instr, 23, 21) == 0b0000:
+        if substring(instr, 24, 21) == 0b0000:
             raise UndefinedInstructionException()
         elif bit_at(instr, 21) or (not index and processor.registers.current_instr_set() != InstrSet.ARM):
             print('unpredictable')
